@@ -39,6 +39,8 @@ type ctlrunIn struct {
 	OrigPwm  int  `json:"orig_pwm"`
 	Top      int  `json:"top"` // highest key of the configured PWM map = where the RPM measurement leaves the fan
 	MaxPwm   int  `json:"max_pwm,omitempty"` // configured maxPwm (0 = not configured)
+	NoRpm    bool `json:"no_rpm,omitempty"`  // fan without RPM input: the control actor is the only actor of the inner group
+	BlockAt  int  `json:"block_at,omitempty"` // scenarios 11/12: the control cycle (curve evaluation) that is in flight when the context is cancelled
 }
 type ctlrunObs struct {
 	Ret     int      `json:"ret"` // 0 Run returned nil, 1 returned an error, 2 panicked, 3 did not return
@@ -63,6 +65,8 @@ const (
 	ctlrunInitFails       = 8 // RPM read fails during the initialisation sequence
 	ctlrunStallAtMax      = 9 // never-stop fan that does not turn, curve asks for the maximum: stalled at max PWM in the second cycle
 	ctlrunStallWalk       = 10 // ... curve asks for half speed: the minimum is raised step by step until the maximum is reached
+	ctlrunCancelInTick    = 11 // the context is cancelled while a control cycle is in flight; the cycle is released after the other actors had time to return
+	ctlrunCancelPending   = 12 // a control cycle blocks for several tick periods (a tick is pending), then cancel and release at once
 )
 
 type ctlrunPers struct {
@@ -97,6 +101,10 @@ type ctlrunCurve struct {
 	fire  func()
 	fail  bool
 	konst int // > 0: constant curve value
+	// blockAt > 0: that evaluation announces itself on blocked and waits for release
+	blockAt int
+	blocked chan struct{}
+	release chan struct{}
 }
 
 func (c *ctlrunCurve) GetId() string { return "ctlrun_curve" }
@@ -104,6 +112,10 @@ func (c *ctlrunCurve) Evaluate() (int, error) {
 	c.n++
 	if c.n == c.at && c.fire != nil {
 		c.fire()
+	}
+	if c.blockAt > 0 && c.n == c.blockAt {
+		close(c.blocked)
+		<-c.release
 	}
 	if c.fail && c.n >= c.at {
 		return 0, errors.New("injected: sensor read failed")
@@ -140,7 +152,7 @@ func ctlrunRun(ctx *Ctx, seq int, in ctlrunIn) (ctlrunObs, string, []string) {
 	if in.Exists {
 		os.WriteFile(enPath, []byte(strconv.Itoa(in.OrigMode)), 0644)
 	}
-	if in.Scn != ctlrunNoRpmSensor {
+	if in.Scn != ctlrunNoRpmSensor && !in.NoRpm {
 		os.WriteFile(rpmPath, []byte("1200"), 0644)
 	}
 	fc := configuration.FanConfig{ID: fmt.Sprintf("ctlrun%d", seq), Curve: "ctlrun_curve",
@@ -176,7 +188,8 @@ func ctlrunRun(ctx *Ctx, seq int, in ctlrunIn) (ctlrunObs, string, []string) {
 		panic(err)
 	}
 	pers := &ctlrunPers{Persistence: persistence.NewPersistence(filepath.Join(dir, "fan2go.db")), scn: in.Scn}
-	if (in.Scn >= ctlrunErrDeviceGone && in.Scn <= ctlrunCancel) || stall {
+	inTick := in.Scn == ctlrunCancelInTick || in.Scn == ctlrunCancelPending
+	if (in.Scn >= ctlrunErrDeviceGone && in.Scn <= ctlrunCancel) || stall || inTick {
 		// characterised earlier: stored data exists
 		data := map[int]float64{0: 0, in.Top: 1200}
 		if stall {
@@ -243,6 +256,28 @@ func ctlrunRun(ctx *Ctx, seq int, in ctlrunIn) (ctlrunObs, string, []string) {
 		curve.fire = func() { mu.Lock(); armed = true; mu.Unlock() }
 	case ctlrunCancel:
 		curve.fire = cancel
+	case ctlrunCancelInTick, ctlrunCancelPending:
+		curve.at = 0
+		curve.blockAt = in.BlockAt
+		if curve.blockAt <= 0 {
+			curve.blockAt = 2
+		}
+		curve.blocked, curve.release = make(chan struct{}), make(chan struct{})
+		go func() {
+			select {
+			case <-curve.blocked:
+			case <-time.After(10 * time.Second):
+				return
+			}
+			if in.Scn == ctlrunCancelInTick {
+				cancel()
+				time.Sleep(30 * time.Millisecond) // the other actors return, the run group fires its interrupt callbacks
+			} else {
+				time.Sleep(12 * time.Millisecond) // several tick periods: a tick is pending
+				cancel()
+			}
+			close(curve.release)
+		}()
 	case ctlrunStallAtMax:
 		curve.konst = 255
 	case ctlrunStallWalk:
@@ -290,10 +325,13 @@ func ctlrunRun(ctx *Ctx, seq int, in ctlrunIn) (ctlrunObs, string, []string) {
 	}
 	dev := func(m, p int) string { return "(mkDev " + cZ(m) + " " + cZ(p) + ")" }
 	coq := cRec("mkCase", cBool(in.Exists), dev(in.OrigMode, in.OrigPwm), cZ(in.Scn), cZ(in.Top),
-		cZ(obs.Ret), cBool(obs.Touched), dev(obs.Mode, obs.Pwm), cZ(obs.Evals))
+		cZ(obs.Ret), cBool(obs.Touched), dev(obs.Mode, obs.Pwm), cZ(obs.Evals), cBool(in.NoRpm))
 	tags := []string{fmt.Sprintf("scn=%d", in.Scn), fmt.Sprintf("ret=%d", obs.Ret), fmt.Sprintf("origmode=%d", in.OrigMode)}
 	if !in.Exists {
 		tags = append(tags, "no-pwm-enable")
+	}
+	if in.NoRpm {
+		tags = append(tags, "no-rpm-input")
 	}
 	if in.MaxPwm > 0 || stall {
 		tags = append(tags, "maxpwm-configured")
@@ -328,6 +366,17 @@ func init() {
 				reps = ctx.Param("reps", 6)
 			}
 			for r := 0; r < reps; r++ {
+				// cancel while a control cycle is in flight / with a tick pending: cycle 1..3, with and without RPM input
+				for _, scn := range []int{ctlrunCancelInTick, ctlrunCancelPending} {
+					for k := 1; k <= 3; k++ {
+						for _, norpm := range []bool{false, true} {
+							om := rng.Pick([]int{2, 1, 0, 2})
+							jobs = append(jobs, ctlrunIn{Scn: scn, Exists: !(om != 2 && rng.Chance(1, 2)), OrigMode: om,
+								OrigPwm: rng.Pick([]int{0, 77, 120}), Top: rng.Pick([]int{120, 200, 240}), NoRpm: norpm, BlockAt: k})
+							jt = append(jt, "generated")
+						}
+					}
+				}
 				for scn := 1; scn <= 10; scn++ {
 					for _, om := range []int{2, 1, 0} {
 						in := ctlrunIn{Scn: scn, Exists: !(om == 0 && rng.Chance(1, 2)), OrigMode: om,
